@@ -108,8 +108,9 @@ class Handler:
 
 class IterView:
   """Finite iterable: symbolic length + element getter (k: z3 Int) -> value."""
-  def __init__(self, length, at, elem_sort=None):
+  def __init__(self, length, at, elem_sort=None, on_exhaust=None):
     self.length, self.at, self.elem_sort = length, at, elem_sort
+    self.on_exhaust = on_exhaust     # called when a for loop has consumed every item (an iterator that raises instead of stopping)
 
 
 class ExcVal:
